@@ -107,7 +107,7 @@ class Executor:
         if self._vcount[key] > MAX_VIOLATIONS_PER_RULE:
             return
         self.violations.append({
-            "prop": prop, "rule": rule, "i": self.i,
+            "prop": prop, "rule": rule, "i": self.i, "pass": self.passes,
             "action": act_str(action) if action is not None else None,
             "msg": msg, "detail": detail})
 
